@@ -5,6 +5,7 @@
 package lib
 
 //@ import anypb "google.golang.org/protobuf/types/known/anypb"
+//@ import net "net"
 
 // Interface contracts of lib.Transport as its callers use them (frames only).
 //@ func (t Transport) ParseParams(libVersion uint, data *anypb.Any) (any, error)
@@ -12,3 +13,45 @@ package lib
 
 //@ func (t Transport) GetDstPort(libVersion uint, seed []byte, parameters any) (uint16, error)
 //@   assigns nothing
+
+// ---------------- C06: covert address policy ----------------
+
+// The policy as a specification: with an allowlist configured an address is forbidden unless some allowlisted
+// subnet contains it (the blocklist is then not consulted); otherwise it is forbidden iff some blocklisted subnet
+// contains it.
+//@ define covertAddrForbidden(c *RegConfig, a net.IP) bool = ite(c.enableCovertAllowlist, !(exists i int :: 0 <= i && i < len(c.covertAllowlistSubnets) && ipnContains(c.covertAllowlistSubnets[i], a)), (exists i int :: 0 <= i && i < len(c.covertBlocklistSubnets) && ipnContains(c.covertBlocklistSubnets[i], a)))
+//@ define covertDomainForbidden(c *RegConfig, h string) bool = (exists i int :: 0 <= i && i < len(c.covertBlocklistDomains) && rxMatches(c.covertBlocklistDomains[i], h))
+
+//@ func (c *RegConfig) isBlocklistedCovertAddr(addr net.IP) bool
+//@   requires c != nil
+//@   ensures @C06: result ==> covertAddrForbidden(c, addr)
+//@   ensures @C06: !result ==> !covertAddrForbidden(c, addr)
+//@   assigns nothing
+//@ loop 1:
+//@   invariant 0 <= iter && iter <= len(c.covertAllowlistSubnets)
+//@   invariant forall j int :: 0 <= j && j < iter ==> !ipnContains(c.covertAllowlistSubnets[j], addr)
+//@ loop 2:
+//@   invariant 0 <= iter && iter <= len(c.covertBlocklistSubnets)
+//@   invariant forall j int :: 0 <= j && j < iter ==> !ipnContains(c.covertBlocklistSubnets[j], addr)
+
+//@ func (c *RegConfig) isBlocklistedCovertDomain(provided string) bool
+//@   requires c != nil
+//@   ensures @C06: result ==> covertDomainForbidden(c, provided)
+//@   ensures @C06: !result ==> !covertDomainForbidden(c, provided)
+//@   assigns nothing
+//@ loop 1:
+//@   invariant 0 <= iter && iter <= len(c.covertBlocklistDomains)
+//@   invariant forall j int :: 0 <= j && j < iter ==> !rxMatches(c.covertBlocklistDomains[j], provided)
+
+// From the property statement: whatever is returned for dialling is a literal IP:port whose IP is a well-formed
+// address outside the forbidden set, whose host did not match a blocklisted pattern, obtained with at most one
+// resolution, and it is the address that was checked.
+//@ func (c *RegConfig) ParseOrResolveBlocklisted(provided string) (string, bool)
+//@   requires c != nil
+//@   let r := lastResolved()
+//@   ensures @C06: resolutions() <= old(resolutions()) + 1
+//@   ensures @C06: result0 != "" ==> r != nil && (len(r.IP) == 4 || len(r.IP) == 16)
+//@   ensures @C06: result0 != "" ==> !covertAddrForbidden(c, r.IP) && !covertDomainForbidden(c, hostOf(provided))
+//@   ensures @C06: result0 != "" ==> result0 == joinHP(ipAddrString(r.IP, r.Zone), portOf(provided)) && isUint16(portOf(provided))
+//@   ensures @C06: result0 != "" && isIPLiteral(hostOf(provided)) ==> result0 == joinHP(canonIP(hostOf(provided)), portOf(provided))
+//@   assigns resolutions(), lastResolved()
